@@ -97,6 +97,14 @@ class Reader(Mutable):
         avail = self.end() - self.pos
         k = z3.If(nt <= avail, nt, z3.If(avail > 0, avail, 0))
         k = z3.simplify(z3.If(nt < 0, z3.If(avail > 0, avail, 0), k))
+        ctx = it.ctx
+        if ctx is not None and not z3.is_int_value(k):
+            # when the path condition already guarantees that n bytes are left, the result has exactly n bytes
+            from .paths import check_sat, _has_quantifier
+            qf = [g for g in ctx.full_pc() if not _has_quantifier(g)]
+            r, _ = check_sat(qf + [z3.Or(nt < 0, nt > avail)], 1500)
+            if r == z3.unsat:
+                k = z3.simplify(nt)
         b = FBytes(self.file, self.pos, k)
         self._write('pos', z3.simplify(self.pos + k))
         self._write('reads', z3.simplify(self.reads + 1))
